@@ -302,6 +302,41 @@ impl ProtoHdr {
     }
 }
 
+/// Verification hooks (feature `verif`): build / read a header field by field.
+#[cfg(feature = "verif")]
+impl ProtoHdr {
+    /// `None` if the flag byte has bits that `decrypt_and_decode` would refuse as well.
+    pub fn verif_from_parts(
+        exch_flags: u8,
+        proto_opcode: u8,
+        exch_id: u16,
+        proto_id: u16,
+        proto_vendor_id: u16,
+        ack_msg_ctr: u32,
+    ) -> Option<Self> {
+        Some(Self {
+            exch_id,
+            exch_flags: ExchFlags::from_bits(exch_flags)?,
+            proto_id,
+            proto_opcode,
+            proto_vendor_id,
+            ack_msg_ctr,
+        })
+    }
+
+    /// `(exch_flags, proto_opcode, exch_id, proto_id, proto_vendor_id, ack_msg_ctr)`
+    pub fn verif_parts(&self) -> (u8, u8, u16, u16, u16, u32) {
+        (
+            self.exch_flags.bits(),
+            self.proto_opcode,
+            self.exch_id,
+            self.proto_id,
+            self.proto_vendor_id,
+            self.ack_msg_ctr,
+        )
+    }
+}
+
 /// Verification hooks: raw access to the private fields. Adds code only.
 #[cfg(feature = "verif")]
 impl ProtoHdr {
